@@ -51,7 +51,26 @@ unsigned long long strtoull(const char *s, char **end, int base) {
 	return v;
 }
 char *strpbrk(const char *s, const char *accept) { for (int i = 0; i < 40 && s[i]; i++) for (int j = 0; j < 8 && accept[j]; j++) if (s[i] == accept[j]) return (char *)s + i; return 0; }
-double strtod(const char *s, char **end) { if (end) *end = (char *)s; return 0; }
+double strtod(const char *s, char **end) {
+	double v = 0, scale = 1; const char *p = s; bool frac = false;
+	for (int i = 0; i < 24; i++) {
+		int c = *p;
+		if (c >= '0' && c <= '9') { if (frac) { scale /= 10; v += (c - '0') * scale; } else v = v * 10 + (c - '0'); p++; }
+		else if (c == '.' && !frac) { frac = true; p++; }
+		else break;
+	}
+	if (*p == 'e' || *p == 'E') {      /* decimal exponent */
+		const char *q = p + 1; bool neg = false; int ex = 0;
+		if (*q == '+' || *q == '-') { neg = *q == '-'; q++; }
+		if (*q >= '0' && *q <= '9') {
+			for (int i = 0; i < 4 && *q >= '0' && *q <= '9'; i++, q++) ex = ex * 10 + (*q - '0');
+			for (int i = 0; i < 40 && i < ex; i++) v = neg ? v / 10 : v * 10;
+			p = q;
+		}
+	}
+	if (end) *end = (char *)p;
+	return v;
+}
 #else
 void *xreallocarray(void *b, size_t n, size_t m) { void *p = realloc(b, n * m); ASSUME(p != 0); return p; }
 #endif
